@@ -23,7 +23,7 @@ ASSUMPTIONS = ['exported text compared modulo value-preserving sign-run normalis
 
 NUMS = [G.leaf('2', N(2)), G.leaf('3', N(3)), G.leaf('5', N(5)), G.leaf('7', N(7))]
 ALT_LEAVES = [G.leaf('4', N(4)), G.leaf('"3"', T('3')), G.leaf('TRUE', B(True)), G.leaf('#N/A', NA), G.leaf('B1', None),
-              G.leaf('"ab"', T('ab')), G.leaf('0.5', N(0.5)), G.leaf('""', T(''))]
+              G.leaf('"ab"', T('ab')), G.leaf('0.5', N(0.5)), G.leaf('""', T('')), G.leaf('.5', N(0.5)), G.leaf('1E+2', N(100)), G.leaf('2.50', N(2.5))]
 ENV = {'B1': N(6)}
 REPS = ['=', '&', '+', '*', '^']
 
@@ -336,7 +336,7 @@ def run_array(case):
 # letter case of logicals, function names and references
 def case_cases(tier):
     for t in ['TRUE', 'true', 'True', 'FALSE', 'false']:
-        for u in ['', '-', 'NOT(%s)']:
+        for u in ['', '-', 'NOT(%s)', 'IF(%s,1,2)', '{%s,1}', '1+%s', '%s&"x"']:
             yield ['case', 'lit', t, u]
     for f in ['SUM(1,2)', 'sum(1,2)', 'Sum(1,2)', 'sUm( 1 , 2 )']:
         yield ['case', 'fn', f, '']
@@ -356,10 +356,10 @@ def run_casevar(case):
     got = b[-1].get_expr
     canon = {'lit': (u % t.upper()) if '%s' in u else u + t.upper(), 'fn': 'SUM(1, 2)', 'ref': '(B1 + C1)', 'err': None}[kind]
     fails = []
-    if kind == 'err':
+    if kind in ('err', 'lit'):
         # the same text with the literal in upper case is the reference: same export, same value
         st2, b2 = parse('=' + ((u % t.upper()) if '%s' in u else u + t.upper()))
-        if st2 != 'ok' or b2[-1].get_expr != got:
+        if st2 != 'ok' or (b2[-1].get_expr != got if kind == 'err' else b2[-1].get_expr.upper() != got.upper()):      # (a logical constant is exported as typed)
             fails.append(Fail('export', got=got, exp=b2[-1].get_expr if st2 == 'ok' else st2, text=text, part='case', signrun=False))
         else:
             v1, v2 = value_of(b), value_of(b2)
